@@ -20,11 +20,16 @@ type memoryQueue struct {
 	queue PriorityQueue
 	key   string
 	mutex sync.RWMutex
+	// firstEnqueuedAt remembers when an item was enqueued for the first time, so that an item which
+	// is dequeued and enqueued again (its attempt was refused) keeps its place among items of the
+	// same score. The entry is dropped by Remove.
+	firstEnqueuedAt map[string]int64
 }
 
 func NewMemoryQueue(key string, _ time.Duration) publictypes.SharedQueueI {
 	memoryQueue := &memoryQueue{
-		key: fmt.Sprintf("%s%s", key, queueKeySuffix),
+		key:             fmt.Sprintf("%s%s", key, queueKeySuffix),
+		firstEnqueuedAt: make(map[string]int64),
 	}
 	heap.Init(&memoryQueue.queue)
 	return memoryQueue
@@ -34,10 +39,16 @@ func (q *memoryQueue) Enqueue(item string, priority float64) error {
 	q.mutex.Lock()
 	defer q.mutex.Unlock()
 
+	timestamp, enqueuedBefore := q.firstEnqueuedAt[item]
+	if !enqueuedBefore {
+		timestamp = time.Now().UnixNano()
+		q.firstEnqueuedAt[item] = timestamp
+	}
+
 	heap.Push(&q.queue, &Item{
 		value:     item,
 		score:     calculateScore(priority),
-		timestamp: time.Now().UnixNano(),
+		timestamp: timestamp,
 	})
 	return nil
 }
@@ -64,6 +75,7 @@ func (q *memoryQueue) Remove(item string) {
 	q.mutex.Lock()
 	defer q.mutex.Unlock()
 
+	delete(q.firstEnqueuedAt, item)
 	for i, v := range q.queue {
 		if v.value == item {
 			heap.Remove(&q.queue, i)
